@@ -1,8 +1,11 @@
 """Binding to the implementation under test: import adb_shell from the chosen checkout, substitute the
 virtual clock, build sync/async device objects on the in-memory transport and run API calls uniformly."""
 import asyncio
+import logging
 import os
 import sys
+
+logging.getLogger('asyncio').setLevel(logging.CRITICAL)     # generators that a scenario deliberately leaves half-consumed are reported by asyncio when their loop is closed
 
 REPO = os.environ.get('VERIF_REPO', '/repo')
 _mods = {}
